@@ -1,13 +1,221 @@
 (* C15 — Documents in a stream are parsed independently of each other.
-   Theorem today: the parser-level reset at every document end (anchors, tag handles, state stack).  The scanner-level
-   locality (indentation / flow / simple-key state after a document-end marker line) and the composition
-   "A ... B parses to docs(A) ++ docs(B)" are exercised on the implementation by concatenating accepted streams. *)
-From Coq Require Import List NArith Bool.
-Import ListNotations.
-Require Import Parser DocReset.
 
+   PARSER (token level, all token lists):
+     C15_document_end_resets   every DocumentEnd step empties the anchor table and (unless keep_tags) the tag table
+     C15_renumbering           raising the anchor id counter only renumbers the events
+     C15_tail_simulation       "... StreamEnd" and "... DocumentEnd rest" are treated alike until the first stream ends
+     C15_composition           tokens(A) ++ [DocumentEnd] ++ tokens(B) is accepted with events(A) ++ events(B) renumbered
+     C15_composition_events    the same on events without spans
+     C15_composition_driver    the same for the model's driver Pipe.parse_all
+     C15_composition_closed, C15_composition_many   closure form; any number of streams
+   SCANNER (character level, all inputs, any input type):
+     C15_char_scanners_are_frames      no character-level scanner touches the skeleton
+     C15_skeleton_invariant            fetch_next_token keeps the skeleton invariant, in particular
+                                       length sc_ifms = sc_flow_level (the state that replaced flow_mapping_started)
+     C15_reachable_skeleton, C15_no_flow_state_between_documents
+     C15_document_marker_resets        fetch_document_indicator at flow level 0 re-creates the StreamStart skeleton
+     C15_marker_token_resets           whenever a step queues a document marker at flow level 0
+     C15_marker_then_newline           ... and after the following line break simple keys are allowed again
+     C15_stream_start_config           the configuration they are compared with
+   Not proved: the character-level locality "tokens(A ... B) = tokens(A) DocumentEnd tokens(B) shifted" (needs the
+   prefix stability of every scalar scanner at a marker line and the position-shift equivariance of the scanner);
+   exercised on the implementation by the concatenation oracle of check_C15. *)
+From Coq Require Import List NArith ZArith Bool.
+Import ListNotations.
+Require Import Parser Grammar SBase SPrim SDir SScalar SFetch Pipe C02run.
+Require Import DocReset DocRun DocShift DocSim DocIndep DocIndepRun ScanFrame DocScan.
+
+(* ------------------------------------------------------------------------------------------------ *)
+(* parser                                                                                            *)
+(* ------------------------------------------------------------------------------------------------ *)
 Theorem C15_document_end_resets : forall p ev p',
-  document_end p = Ok (ev, p') ->
+  document_end p = Parser.Ok (ev, p') ->
   doc_reset p p' /\ (p_state p' = SImplicitDocumentStart \/ p_state p' = SDocumentStart).
 Proof. exact document_end_resets. Qed.
 Print Assumptions C15_document_end_resets.
+
+Theorem C15_renumbering : forall d p,
+  p_anchor_id p <> 0%N -> state_machine (shiftp d p) = shift_res d (state_machine p).
+Proof. exact state_machine_shift. Qed.
+Print Assumptions C15_renumbering.
+
+Theorem C15_tail_simulation : forall sps spd rest p1 p2 e sp p1',
+  R sps spd rest p1 p2 -> DL p1 -> state_machine p1 = Parser.Ok ((e, sp), p1') ->
+  (exists sp' p2', state_machine p2 = Parser.Ok ((e, sp'), p2') /\ R sps spd rest p1' p2' /\ DL p1')
+  \/ (e = EStreamEnd /\ sp = sps /\ p_state p1 = SImplicitDocumentStart /\ p_state p1' = SEnd
+      /\ p_anchor_id p1' = p_anchor_id p1 /\ state_machine p2 = state_machine (restp rest p2))
+  \/ (e = EDocumentEnd /\ p_state p1 = SDocumentEnd /\ p_state p1' = SDocumentStart
+      /\ p_token p1' = Some (sps, TStreamEnd)
+      /\ p_anchor_id p1' = p_anchor_id p1 /\ p_states p1' = p_states p1
+      /\ exists sp', state_machine p2 = Parser.Ok ((EDocumentEnd, sp'), pB rest (p_states p2) (p_anchor_id p2))).
+Proof. exact sim_step. Qed.
+Print Assumptions C15_tail_simulation.
+
+Theorem C15_composition : forall ssA ta sps spd ssB tb seB evA evB,
+  snd ssA = TStreamStart -> Forall (fun t => snd t <> TStreamEnd) ta ->
+  accepts (ssA :: ta ++ [(sps, TStreamEnd)]) false evA ->
+  accepts (ssB :: tb ++ [seB]) false evB ->
+  exists pre pre' b n,
+    evA = pre ++ [(EStreamEnd, sps)] /\ evB = (EStreamStart, fst ssB) :: b
+    /\ arun 0 (DocRun.evs_of evA) = Some n /\ n = count_anchored (DocRun.evs_of evA)
+    /\ DocRun.evs_of pre' = DocRun.evs_of pre
+    /\ accepts (ssA :: ta ++ (spd, TDocumentEnd) :: tb ++ [seB]) false (pre' ++ map (shift_evsp n) b).
+Proof. exact doc_composition. Qed.
+Print Assumptions C15_composition.
+
+Theorem C15_composition_events : forall ssA ta sps spd ssB tb seB evA evB,
+  snd ssA = TStreamStart -> Forall (fun t => snd t <> TStreamEnd) ta ->
+  accepts (ssA :: ta ++ [(sps, TStreamEnd)]) false evA ->
+  accepts (ssB :: tb ++ [seB]) false evB ->
+  exists evC,
+    accepts (ssA :: ta ++ (spd, TDocumentEnd) :: tb ++ [seB]) false evC
+    /\ DocRun.evs_of evC
+       = removelast (DocRun.evs_of evA)
+         ++ map (shift_ev (count_anchored (DocRun.evs_of evA))) (tl (DocRun.evs_of evB)).
+Proof. exact doc_composition_events. Qed.
+Print Assumptions C15_composition_events.
+
+Theorem C15_composition_driver : forall ssA ta sps spd ssB tb seB fA fB sa sb evA evB,
+  snd ssA = TStreamStart -> Forall (fun t => snd t <> TStreamEnd) ta ->
+  parse_all fA (init_parser (ssA :: ta ++ [(sps, TStreamEnd)]) false) sa [] = (evA, PDone) ->
+  parse_all fB (init_parser (ssB :: tb ++ [seB]) false) sb [] = (evB, PDone) ->
+  exists evC,
+    (forall fuel sc, (length evA + length evB < fuel)%nat ->
+       parse_all fuel (init_parser (ssA :: ta ++ (spd, TDocumentEnd) :: tb ++ [seB]) false) sc [] = (evC, PDone))
+    /\ DocRun.evs_of evC
+       = removelast (DocRun.evs_of evA)
+         ++ map (shift_ev (count_anchored (DocRun.evs_of evA))) (tl (DocRun.evs_of evB)).
+Proof. exact doc_composition_parse_all. Qed.
+Print Assumptions C15_composition_driver.
+
+(* accepted well-formed streams are closed under gluing with a document-end marker; hence any number of streams *)
+Theorem C15_composition_closed : forall spd TA EA TB EB,
+  Acc TA EA -> Acc TB EB ->
+  exists EC, Acc (glueT spd TA TB) EC /\ DocRun.evs_of EC = glueE (DocRun.evs_of EA) (DocRun.evs_of EB).
+Proof. exact Acc_glue. Qed.
+Print Assumptions C15_composition_closed.
+
+Theorem C15_composition_many : forall l T0 E0,
+  Acc T0 E0 -> Forall (fun x => Acc (snd (fst x)) (snd x)) l ->
+  exists EC, Acc (glue_allT T0 l) EC /\ DocRun.evs_of EC = glue_allE (DocRun.evs_of E0) l.
+Proof. exact doc_composition_many. Qed.
+Print Assumptions C15_composition_many.
+
+(* ------------------------------------------------------------------------------------------------ *)
+(* scanner                                                                                           *)
+(* ------------------------------------------------------------------------------------------------ *)
+Theorem C15_char_scanners_are_frames : forall (I : Type) (ops : InputOps I) (F : nat),
+  Fr (skip_to_next_token ops F) /\ Fr (skip_ws_to_eol ops F SkipYes) /\ Fr (skip_yaml_whitespace ops F)
+  /\ Fr (scan_directive ops F) /\ Fr (scan_tag ops F) /\ (forall alias, Fr (scan_anchor ops F alias))
+  /\ (forall single, Fr (scan_flow_scalar ops F single)) /\ Fr (scan_plain_scalar ops F)
+  /\ (forall literal, Fr (scan_block_scalar ops F literal)).
+Proof. exact @char_scanners_are_frames. Qed.
+Print Assumptions C15_char_scanners_are_frames.
+
+Theorem C15_skeleton_invariant : forall (I : Type) (ops : InputOps I) (F : nat) (s : sc I) (a : unit) (s' : sc I),
+  SkInv s -> fetch_next_token ops F s = SBase.Ok (a, s') -> SkInv s'.
+Proof. exact @fetch_next_token_SkInv. Qed.
+Print Assumptions C15_skeleton_invariant.
+
+Theorem C15_reachable_skeleton : forall (I : Type) (ops : InputOps I) (F : nat) (s : sc I),
+  reach ops F s ->
+  (if sc_stream_start s then N.of_nat (length (sc_sks s)) = (sc_flow_level s + 1)%N
+   else sc_sks s = [] /\ sc_flow_level s = 0%N /\ sc_indents s = [])
+  /\ chain (sc_indent s) (sc_indents s)
+  /\ N.of_nat (length (sc_ifms s)) = sc_flow_level s.
+Proof. exact @reach_SkInv. Qed.
+Print Assumptions C15_reachable_skeleton.
+
+Theorem C15_no_flow_state_between_documents : forall (I : Type) (ops : InputOps I) (F : nat) (s : sc I),
+  reach ops F s -> sc_flow_level s = 0%N -> sc_ifms s = [].
+Proof. exact @reach_no_flow_state_outside_flow. Qed.
+Print Assumptions C15_no_flow_state_between_documents.
+
+Theorem C15_document_marker_resets : forall (I : Type) (ops : InputOps I) (t : tok) (s s' : sc I),
+  SkInv s -> sc_stream_start s = true -> sc_flow_level s = 0%N ->
+  fetch_document_indicator ops t s = SBase.Ok (tt, s') ->
+  marker_config s' /\ sc_ska s' = false
+  /\ exists toks sp, sc_tokens s' = sc_tokens s ++ toks ++ [(sp, t)] /\ block_ends toks.
+Proof. exact @fetch_document_indicator_resets. Qed.
+Print Assumptions C15_document_marker_resets.
+
+Theorem C15_marker_token_resets : forall (I : Type) (ops : InputOps I) (F : nat) (s : sc I) (a : unit) (s' : sc I),
+  SkInv s -> fetch_next_token ops F s = SBase.Ok (a, s') ->
+  sc_flow_level s' = 0%N -> last_tok (fun tk => is_marker tk = true) s' ->
+  marker_config s' /\ sc_ska s' = false.
+Proof. exact @fetch_next_token_marker. Qed.
+Print Assumptions C15_marker_token_resets.
+
+Theorem C15_marker_then_newline : forall (I : Type) (ops : InputOps I) (fuel : nat) (s s' : sc I),
+  marker_config s -> skip_to_next_token ops fuel s = SBase.Ok (tt, s') ->
+  m_line (sc_mark s') <> m_line (sc_mark s) ->
+  marker_config s' /\ sc_ska s' = true.
+Proof. exact @marker_then_newline. Qed.
+Print Assumptions C15_marker_then_newline.
+
+Theorem C15_stream_start_config : forall (I : Type) (i : I) (s' : sc I),
+  fetch_stream_start (init_sc i) = SBase.Ok (tt, s') -> marker_config s' /\ sc_ska s' = true.
+Proof. exact @stream_start_config. Qed.
+Print Assumptions C15_stream_start_config.
+
+(* ------------------------------------------------------------------------------------------------ *)
+(* examples: the hypotheses are satisfiable, the statements are not trivially true                    *)
+(* ------------------------------------------------------------------------------------------------ *)
+Local Open Scope N_scope.
+Definition sp0 : span := span_empty {| m_index := 0; m_line := 1; m_col := 0 |}.
+(* A = "&a x" (one anchored scalar), B = "&b y": both accepted on their own by the driver *)
+Definition exA : list token := [(sp0, TStreamStart); (sp0, TAnchor [97]); (sp0, TScalar Plain [120]); (sp0, TStreamEnd)].
+Definition exB : list token := [(sp0, TStreamStart); (sp0, TAnchor [98]); (sp0, TScalar Plain [121]); (sp0, TStreamEnd)].
+Definition exC : list token :=
+  [(sp0, TStreamStart); (sp0, TAnchor [97]); (sp0, TScalar Plain [120]); (sp0, TDocumentEnd);
+   (sp0, TAnchor [98]); (sp0, TScalar Plain [121]); (sp0, TStreamEnd)].
+Example composition_hypotheses_hold :
+  snd (parse_all 20 (init_parser exA false) SEnded []) = PDone
+  /\ snd (parse_all 20 (init_parser exB false) SEnded []) = PDone.
+Proof. split; vm_compute; reflexivity. Qed.
+(* ... and in the composition the anchor of B really is renumbered (id 2), the alias table does not leak *)
+Example composition_renumbers :
+  C02run.evs_of (fst (parse_all 20 (init_parser exC false) SEnded []))
+  = [EStreamStart; EDocumentStart false; EScalar [120] Plain 1 None; EDocumentEnd;
+     EDocumentStart false; EScalar [121] Plain 2 None; EDocumentEnd; EStreamEnd].
+Proof. vm_compute. reflexivity. Qed.
+(* with keep_tags the tag table is NOT reset: the hypothesis "keep = false" of the composition theorem matters *)
+Example keep_tags_is_not_independent :
+  exists p ev p', p_keep_tags p = true /\ document_end p = Parser.Ok (ev, p') /\ p_tags p' <> [].
+Proof.
+  exists {| p_toks := []; p_token := Some (sp0, TStreamEnd); p_states := []; p_state := SDocumentEnd;
+            p_anchors := []; p_anchor_id := 1; p_tags := [([33;101;33], [120])]; p_keep_tags := true |}.
+  eexists _, _. split; [reflexivity|]. split; [vm_compute; reflexivity|]. discriminate.
+Qed.
+
+(* the regression input of the repaired class (/repo ad74b3e): "{x}\n...\n[ : ]\n" is accepted by the model,
+   and the scanner states around the marker are the ones the theorems talk about *)
+Definition ex_text : list N := [123;120;125;10;46;46;46;10;91;32;58;32;93;10].
+Example fixed_class_accepted : snd (run_str ex_text) = PDone.
+Proof. vm_compute. reflexivity. Qed.
+Notation ex_state k := (fetches str_ops 40 k (init_sc {| si_chars := ex_text; si_look := 0 |})).
+Definition ex_view (k : nat) :=
+  match ex_state k with
+  | Some s => Some (map snd (sc_tokens s), sc_flow_level s, sc_ifms s, sc_indent s, sc_ska s, map sk_possible (sc_sks s))
+  | None => None
+  end.
+(* after "{x}\n..." : marker token queued, flow level 0, no flow state left, marker configuration *)
+Example marker_state :
+  ex_view 5 = Some ([TStreamStart; TFlowMappingStart; TScalar Plain [120]; TFlowMappingEnd; TDocumentEnd],
+                    0, [], (-1)%Z, false, [false]).
+Proof. vm_compute. reflexivity. Qed.
+(* inside "[ : " the per-collection state is live (so the invariant is not about an always-empty stack) *)
+Example flow_state_live :
+  ex_view 7 = Some ([TStreamStart; TFlowMappingStart; TScalar Plain [120]; TFlowMappingEnd; TDocumentEnd;
+                     TFlowSequenceStart; TFlowMappingStart; TValue], 1, [ImInside], (-1)%Z, false, [false; true]).
+Proof. vm_compute. reflexivity. Qed.
+Example marker_state_satisfies_theorem :
+  exists s, ex_state 5 = Some s /\ SkInv s /\ sc_flow_level s = 0 /\ last_tok (fun tk => is_marker tk = true) s.
+Proof.
+  assert (E : exists s, ex_state 5 = Some s /\ sc_flow_level s = 0
+                        /\ exists l sp, sc_tokens s = l ++ [(sp, TDocumentEnd)]).
+  { vm_compute. eexists. split; [reflexivity|]. split; [reflexivity|]. eexists [_; _; _; _], _. reflexivity. }
+  destruct E as (s & E & EF & l & sp & ET). exists s. split; [exact E|].
+  split; [eapply fetches_SkInv; [apply SkInv_init|exact E]|]. split; [exact EF|].
+  exists l, sp, TDocumentEnd. auto.
+Qed.
